@@ -371,6 +371,23 @@ def _is_filter(test: ast.AST) -> str:
     return ""
 
 
+def ancestors_of(root: ast.AST, node: ast.AST) -> List[ast.AST]:
+    """Nodes of *root* that (transitively) contain *node* (root-first)."""
+    out: List[ast.AST] = []
+
+    def rec(cur: ast.AST) -> bool:
+        if cur is node:
+            return True
+        for ch in ast.iter_child_nodes(cur):
+            if rec(ch):
+                out.append(cur)
+                return True
+        return False
+
+    rec(root)
+    return out
+
+
 def _in_handler(fn: ast.AST, node: ast.AST) -> bool:
     return any(isinstance(a, ast.ExceptHandler) for a in ancestors(node))
 
@@ -1020,6 +1037,28 @@ def run(repo: Repo, R: Report) -> None:
         R.check(has_proc and has_key, r_ck, NODES, f"{cname}.get_created_keys" if oq.startswith(cname) else f"{cname}.get_created_keys (inherited from {oq})", "context_key + processor's created keys", "the node writes the swept processor's <var>_values into the context at run time but declares only its own context key: created keys do not mirror the processor", f0.lineno)
         if has_proc:
             R.check(uniq, r_ck, NODES, f"{cname}.get_created_keys", "no duplicate when a processor key equals context_key", "when the node's context_key equals one of the processor's created keys the node reports a duplicate (SVA104 error)", f0.lineno)
+    # a generated class whose created keys are its own keys followed by the wrapped element's keys must not list a key
+    # twice (a sweep of a swept element with the same variable name): SVA104 reports duplicates as an error
+    sweep_rel = "semantiva/data_processors/parametric_sweep_factory.py"
+    n_cat = 0
+    for qn, f0 in sorted(repo.module(sweep_rel).defs.items()):
+        if not (isinstance(f0, FuncNode) and f0.name == "get_created_keys"):
+            continue
+        f = clone(normalize(repo, repo.module(sweep_rel), f0, copyprop="all", loops=True))
+        for ret in [n for n in ast.walk(f) if isinstance(n, ast.Return) and n.value is not None]:
+            adds = [b for b in ast.walk(ret.value) if isinstance(b, ast.BinOp) and isinstance(b.op, ast.Add)]
+            for b in adds:
+                sides = [b.left, b.right]
+                wrapped = [x for x in sides if any(isinstance(a, ast.Attribute) and a.attr == "get_created_keys" for a in _flow(f, x))]
+                if len(wrapped) != 1:
+                    continue
+                n_cat += 1
+                w = wrapped[0]
+                dedup = any(isinstance(c, ast.comprehension) and any(isinstance(t, ast.Compare) and len(t.ops) == 1 and isinstance(t.ops[0], ast.NotIn) for i in c.ifs for t in ast.walk(i)) for c in _flow(f, w)) \
+                    or any(isinstance(c, ast.Call) and call_name(c) in ("dict.fromkeys", "set", "sorted") for a in ancestors_of(ret.value, b) for c in [a])
+                R.check(dedup, r_ck, sweep_rel, qn, "own <var>_values keys + the element's created keys, without duplicates", "the generated class lists its own keys followed by the wrapped element's keys without removing duplicates: a sweep of a swept element that uses the same variable name declares `t_values` twice, and the node built on it fails SVA104 (duplicate created keys, error)", getattr(f0, "lineno", 0))
+    if n_cat == 0:
+        R.note("no generated get_created_keys concatenates own keys with the element's keys")
     # SVA107: registry must be able to answer membership for every live generated class
     r_reg = R.rule("C16-D3-registry-coherence", "every generated component class is registered under its component_type in a per-class (not per-name) container, so the registry-coherence rule holds for all live generated classes", 2)
     mi = repo.func(COMP, "_SemantivaComponentMeta.__init__")
